@@ -7,6 +7,23 @@ resolve-f's-Deferred / cancel-of-run on one real DeferredLock or
 DeferredSemaphore(1..3); a fraction of runs also issues operations re-entrantly
 from inside a grant callback or from inside f.  The tape picks every operation.
 
+The result object of f takes every shape the interface accepts: a plain value, a
+raised exception, a returned Failure, a plain Deferred (fired, failed, pending,
+called-but-waiting on another one), an instance of a Deferred SUBCLASS (an
+application's own subclass; the DeferredList built by gatherResults() /
+DeferredList() over 0..2 sub-operations that the tape fires one at a time) and a
+coroutine.  The same critical sections are also entered through the other public
+acquire/release pair of the two classes, `async with primitive:` (__aenter__ =
+acquire, __aexit__ = release by the holder that leaves its block): a coroutine
+client enters the block, runs the same body and leaves normally, with the body's
+exception, or because its task was cancelled (while it waits to enter = cancelled
+pending acquisition; while it is inside = the holder leaves with CancelledError).
+Every run ends with a drain: the coroutine clients are always brought to their
+end; in half of the runs every outstanding result is fired and every holder
+released as well, and afterwards the primitive must be completely free.
+In two thirds of the runs a second, independent lock / semaphore (own requests,
+own model) is alive at the same time and is driven in between.
+
 Oracle: an independent FIFO reference model (ordered holders, ordered waiters,
 grant log).  The model is advanced immediately *before* each atomic real
 operation; every real grant callback checks that the model has already granted
@@ -21,7 +38,7 @@ ID = "C06"
 ENGINE = "tasks"
 LEVEL = "exploration"
 TECHNIQUE = "deterministic simulation: seeded interleaving of client operations on a real lock/semaphore vs reference FIFO capacity model"
-QUICK_RUNS = 48000
+QUICK_RUNS = 36000
 TWIN_P = 0.1   # a tenth of the runs drive two primitives one after the other (see detsim.runner._run_scenario)
 USES_DEPTH = True   # thorough tier: history length bound scales with sim.depth (1..3) beyond the quick tier\'s run indices
 BATCH = 400
@@ -31,16 +48,32 @@ COMPONENTS = {"real": ["twisted.internet.defer.DeferredLock", "twisted.internet.
               "stub": ["order in which independent clients issue operations (tape)",
                        "the functions passed to run() and the moment their Deferreds fire (tape)"]}
 RULE = ("run = up to 40 tape-chosen operations (acquire / release by a holder / cancel of any acquisition or run Deferred / "
-        "run(f) with f in {value, raise, fired Deferred, failed Deferred, pending Deferred, pending Deferred with a canceller} / "
-        "fire a pending f Deferred with success or failure / the same issued re-entrantly from a grant callback or from inside f) "
-        "on a DeferredLock or DeferredSemaphore(1..3); non-trivial = some acquisition had to wait and was granted later AND "
+        "run(f) with f in {value, raise, returned Failure, fired Deferred, failed Deferred, pending Deferred, pending Deferred with a "
+        "canceller, called-but-chained Deferred, instance of an application's Deferred subclass, gatherResults()/DeferredList() over "
+        "0..2 sub-operations fired one at a time, coroutine} / the same body inside `async with primitive:` of a coroutine client "
+        "(share drawn per run: 0, 0.3, 0.6) / fire a pending result with success or failure / cancel of a run or of an async-with "
+        "task while it waits and while it is inside / the same issued re-entrantly from a grant callback or from inside f) "
+        "on a DeferredLock or DeferredSemaphore(1..3) - in 2/3 of the runs beside a live companion lock/semaphore(2) with its own "
+        "acquire/release traffic and model - followed by a drain (coroutine clients finished; in half of the runs every outstanding "
+        "result fired and every holder released, then all capacity must be back); non-trivial = some acquisition had to wait and was granted later AND "
         "(a pending acquisition was cancelled, or a run() function failed, or an async run completed, or a re-entrant op occurred)")
-ASSUMPTIONS = ["release() is only called by a current holder obtained through acquire() (run() releases for itself)",
-               "functions passed to run() do not release the primitive themselves"]
+ASSUMPTIONS = ["release() is only called by a current holder obtained through acquire() (run() releases for itself, an async-with "
+               "client releases by leaving its block and in no other way)",
+               "functions passed to run() / bodies of async-with blocks do not release the primitive themselves",
+               "`async with primitive:` is acquire (__aenter__) and release by the holder (__aexit__) of the same two classes reached "
+               "through their other public entry point; leaving the block - normally, by an exception or by CancelledError - is the "
+               "holder's release",
+               "an async-with task is cancelled only while it is suspended (waiting to enter, or awaiting inside its block), never "
+               "from inside its own running body (what the coroutine machinery does then is not this property's business)",
+               "sub-operation failures of gatherResults()/DeferredList() are consumed (consumeErrors=True)"]
 
 
 class BoomError(Exception):
     pass
+
+
+class AppDeferred(defer.Deferred):
+    """An application's own Deferred subclass (as returned by many libraries built on Twisted)."""
 
 
 class Model:
@@ -75,7 +108,41 @@ class Model:
 
 # "pending-chained": f returns a Deferred that has already been called back but whose callback chain is waiting on another,
 # unfired Deferred (`called` is true, there is no result yet) - f's result is available only when that inner Deferred fires
-F_MODES = [("value", 4), ("raise", 3), ("pending", 6), ("fired", 2), ("failed", 2), ("pending-canceller", 2), ("pending-chained", 3)]
+# "pending-subclass": a pending instance of an application's Deferred subclass; "gather" / "dlist": the DeferredList (a Deferred
+# subclass) returned by gatherResults() / DeferredList() over 0..2 sub-operations - the result is available when the last
+# sub-operation has fired (gather: or the first one has failed); "coroutine": f returns a coroutine that awaits a pending Deferred;
+# "failure-returned": f returns (does not raise) a Failure
+F_MODES = [("value", 4), ("raise", 3), ("pending", 6), ("fired", 2), ("failed", 2), ("pending-canceller", 2), ("pending-chained", 3),
+           ("gather", 3), ("pending-subclass", 2), ("coroutine", 3), ("dlist", 2), ("failure-returned", 1)]
+
+
+def _show(res):
+    if isinstance(res, Failure):
+        return "F:" + res.type.__name__
+    if isinstance(res, (list, tuple)):
+        return "[" + ",".join(_show(x) for x in res) + "]"
+    if isinstance(res, (str, int, bool)) or res is None:
+        return str(res)
+    return "<%s>" % type(res).__name__   # never the repr of an arbitrary object (addresses)
+
+
+def _matches(expect, res):
+    kind, val = expect
+    if kind == "value":
+        return not isinstance(res, Failure) and res == val
+    if kind == "fail":
+        return isinstance(res, Failure) and bool(res.check(val))
+    # "dlist": list of (success, value | exception type)
+    if not isinstance(res, list) or len(res) != len(val):
+        return False
+    for (ok, v), got in zip(val, res):
+        if not isinstance(got, tuple) or len(got) != 2 or bool(got[0]) != ok:
+            return False
+        if ok and got[1] != v:
+            return False
+        if not ok and not (isinstance(got[1], Failure) and got[1].check(v)):
+            return False
+    return True
 
 
 def run(sim):
@@ -83,7 +150,11 @@ def run(sim):
     is_lock = limit == 1 and not sim.draw_bool(0.4, "sem1")
     nops = sim.draw_int(3, 40 * sim.depth, "nops")
     reent_p = sim.draw_choice([0.0, 0.0, 0.25, 0.5], "reentrancy")
-    sim.config = {"primitive": "lock" if is_lock else "semaphore", "limit": limit, "nops": nops, "reentrant": reent_p}
+    with_p = sim.draw_choice([0.0, 0.3, 0.6], "async_with_share")
+    drain = sim.draw_choice(["tasks", "full"], "drain")
+    companion = sim.draw_choice(["none", "lock", "semaphore"], "companion")
+    sim.config = {"primitive": "lock" if is_lock else "semaphore", "limit": limit, "nops": nops, "reentrant": reent_p,
+                  "async_with": with_p, "drain": drain, "companion": companion}
     prim = defer.DeferredLock() if is_lock else defer.DeferredSemaphore(limit)
     m = Model(limit)
 
@@ -91,18 +162,62 @@ def run(sim):
     order = []           # ids in creation order
     real_grants = []     # ids in the order their grant was observed on the real object
     real_holders = set()  # granted on the real object and not yet released by the harness / by run
-    st = {"next": 0, "depth": 0}
+    st = {"next": 0, "depth": 0, "draining": False}
     flags = {"waited_then_granted": 0, "special": 0}
 
-    def new(kind, fmode=None):
+    def new(kind, fmode=None, via=None):
         a = st["next"]
         st["next"] += 1
-        recs[a] = {"kind": kind, "fmode": fmode, "d": None, "res": [], "state": "new", "fd": None,
-                   "f_calls": 0, "expect": None, "waited": False}
+        recs[a] = {"kind": kind, "fmode": fmode, "via": via, "d": None, "res": [], "state": "new", "fd": None,
+                   "subs": None, "sub_res": None, "f_calls": 0, "expect": None, "waited": False}
         order.append(a)
         return a
 
+    # ---- a second, independent primitive that is alive at the same time (own requests, own model, driven in between the
+    # operations on the first one): what belongs to one primitive - its capacity, its waiters - is its own
+    climit = {"none": 0, "lock": 1, "semaphore": 2}[companion]
+    cprim = None if companion == "none" else defer.DeferredLock() if companion == "lock" else defer.DeferredSemaphore(climit)
+    cm = Model(climit)
+    cgrants = []
+    cst = {"next": 0}
+
+    def check_companion():
+        if cprim is None:
+            return
+        if companion == "lock":
+            sim.check("capacity-conserved", bool(cprim.locked) == (len(cm.holders) == 1), "companion",
+                      lambda: "companion locked=%r model holders=%r" % (cprim.locked, cm.holders))
+        else:
+            sim.check("capacity-conserved", cprim.tokens + len(cm.holders) == climit, "companion",
+                      lambda: "companion tokens=%r limit=%d model holders=%r" % (cprim.tokens, climit, cm.holders))
+        sim.check("waiters-match", len(cprim.waiting) == len(cm.waiters), "companion",
+                  lambda: "companion real waiting=%d model waiters=%r" % (len(cprim.waiting), cm.waiters))
+        sim.check("grants-match", cgrants == cm.grants, "companion",
+                  lambda: "companion real grant order=%r model=%r" % (cgrants, cm.grants))
+
+    def op_companion():
+        sim.probe("companion_primitive_op")
+        if cm.holders and sim.draw_bool(0.4, "companion-release"):
+            h = cm.holders[0]
+            nxt = cm.release(h)
+            sim.event("companion-release", h, "next=%s" % (nxt if nxt is not None else "-"))
+            with sim.guard("op-raised", "release"):
+                cprim.release()
+        else:
+            k = cst["next"]
+            cst["next"] += 1
+            granted = cm.acquire(k)
+            sim.event("companion-acquire", k, "grant" if granted else "wait")
+            with sim.guard("op-raised", "acquire"):
+                d = cprim.acquire()
+
+            def got(res, k=k):
+                sim.check("fires-with-primitive", res is cprim, "companion", lambda: "companion acquisition %d fired with %r" % (k, type(res).__name__))
+                cgrants.append(k)
+            d.addCallback(got)
+
     def check_state(where):
+        check_companion()
         holders = len(m.holders)
         if is_lock:
             sim.check("capacity-conserved", bool(prim.locked) == (holders == 1), where,
@@ -132,7 +247,7 @@ def run(sim):
         r["state"] = "holding"
 
     def maybe_reenter(where):
-        if reent_p and st["depth"] < 2 and sim.draw_bool(reent_p, "reenter"):
+        if reent_p and not st["draining"] and st["depth"] < 2 and sim.draw_bool(reent_p, "reenter"):
             st["depth"] += 1
             flags["special"] += 1
             sim.probe("reentrant_op")
@@ -168,9 +283,10 @@ def run(sim):
         def f(arg):
             r = recs[a]
             r["f_calls"] += 1
-            sim.check("run-fn-called-once", r["f_calls"] == 1 and arg == a, "run", lambda: "f of run %d called %d times" % (a, r["f_calls"]))
-            sim.check("cancelled-never-granted", r["state"] != "cancelled", "run", lambda: "cancelled run %d had its function called" % a)
-            observed_grant(a, "run")
+            where = "run" if r["via"] == "run" else "async-with"
+            sim.check("run-fn-called-once", r["f_calls"] == 1 and arg == a, where, lambda: "f of run %d called %d times" % (a, r["f_calls"]))
+            sim.check("cancelled-never-granted", r["state"] != "cancelled", where, lambda: "cancelled run %d had its function called" % a)
+            observed_grant(a, where)
             r["state"] = "in_f"
             maybe_reenter("in-run-function")
             mode = r["fmode"]
@@ -183,6 +299,12 @@ def run(sim):
                 flags["special"] += 1
                 finish_run(a)
                 raise BoomError(a)
+            if mode == "failure-returned":
+                r["expect"] = ("fail", BoomError)
+                flags["special"] += 1
+                sim.probe("run_fn_returned_failure_object")
+                finish_run(a)
+                return Failure(BoomError(a))
             if mode == "fired":
                 r["expect"] = ("value", "s%d" % a)
                 finish_run(a)
@@ -192,8 +314,28 @@ def run(sim):
                 flags["special"] += 1
                 finish_run(a)
                 return defer.fail(BoomError(a))
+            if mode in ("gather", "dlist"):
+                n = sim.draw_choice([1, 2, 0], "nsubs")
+                subs = [defer.Deferred() for _ in range(n)]
+                if mode == "gather":
+                    out = defer.gatherResults(subs, consumeErrors=True)
+                else:
+                    out = defer.DeferredList(subs, consumeErrors=True)
+                sim.probe("run_fn_returned_deferred_subclass_instance")
+                if n == 0:
+                    # nothing to wait for: the DeferredList has already fired with []
+                    r["expect"] = ("value", [])
+                    finish_run(a)
+                    return out
+                r["subs"] = subs
+                r["sub_res"] = [None] * n
+                r["state"] = "async"
+                return out
             if mode == "pending-canceller":
                 fd = defer.Deferred(lambda d: d.callback("c%d" % a))
+            elif mode == "pending-subclass":
+                sim.probe("run_fn_returned_deferred_subclass_instance")
+                fd = AppDeferred()
             else:
                 fd = defer.Deferred()
             r["fd"] = fd
@@ -203,27 +345,44 @@ def run(sim):
                 outer = defer.succeed("pre%d" % a)
                 outer.addCallback(lambda _ignored: fd)
                 return outer
+            if mode == "coroutine":
+                sim.probe("run_fn_returned_coroutine")
+
+                async def co():
+                    return "co:" + (await fd)
+                return co()
             return fd
         return f
+
+    def start_with(a):
+        """A coroutine client: the critical section is the body of `async with prim:`."""
+        f = make_f(a)
+
+        async def task():
+            async with prim as got:
+                sim.check("fires-with-primitive", got is prim, "async-with", lambda: "async with of %d bound %r" % (a, type(got).__name__))
+                out = f(a)
+                if isinstance(out, Failure):
+                    out.raiseException()
+                if isinstance(out, defer.Deferred) or hasattr(out, "cr_frame"):
+                    out = await out
+            return out
+        return defer.Deferred.fromCoroutine(task())
 
     def on_run_result(res, a):
         r = recs[a]
         r["res"].append(res)
-        sim.event("run-result", a, "F:" + res.type.__name__ if isinstance(res, Failure) else res)
+        where = "run" if r["via"] == "run" else "async-with"
+        sim.event("run-result", a, _show(res))
         if r["state"] == "cancelled":
             sim.check("cancelled-never-granted", isinstance(res, Failure) and res.check(defer.CancelledError) and r["f_calls"] == 0,
-                      "run", lambda: "cancelled queued run %d: result %r f_calls=%d" % (a, res, r["f_calls"]))
+                      where, lambda: "cancelled queued run %d: result %r f_calls=%d" % (a, res, r["f_calls"]))
             return None
-        sim.check("run-result-after-release", r["state"] == "done" and r["expect"] is not None, "run",
+        sim.check("run-result-after-release", r["state"] == "done" and r["expect"] is not None, where,
                   lambda: "run %d delivered %r in state %s" % (a, res, r["state"]))
-        kind, val = r["expect"]
-        if kind == "value":
-            ok = res == val
-        else:
-            ok = isinstance(res, Failure) and res.check(val)
-        sim.check("run-result-is-fn-result", ok, "run", lambda: "run %d delivered %r expected %r" % (a, res, r["expect"]))
+        sim.check("run-result-is-fn-result", _matches(r["expect"], res), where, lambda: "run %d delivered %r expected %r" % (a, res, r["expect"]))
         # by now the unit has been returned: capacity must agree with the model
-        check_state("at-run-result")
+        check_state("at-run-result" if r["via"] == "run" else "at-async-with-result")
         return None
 
     # ---- operations
@@ -244,19 +403,25 @@ def run(sim):
 
     def op_run():
         fmode = sim.draw_weighted(F_MODES, "fmode")
-        a = new("run", fmode)
+        via = "with" if with_p and sim.draw_bool(with_p, "via-async-with") else "run"
+        a = new("run", fmode, via)
         granted = m.acquire(a)
         recs[a]["waited"] = not granted
         recs[a]["state"] = "waiting"
-        sim.event("run", a, fmode, "grant" if granted else "wait")
-        with sim.guard("op-raised", "run"):
-            d = prim.run(make_f(a), a)
+        sim.event(via, a, fmode, "grant" if granted else "wait")
+        if via == "run":
+            with sim.guard("op-raised", "run"):
+                d = prim.run(make_f(a), a)
+        else:
+            sim.probe("async_with_client")
+            with sim.guard("op-raised", "async-with"):
+                d = start_with(a)
         recs[a]["d"] = d
         d.addBoth(on_run_result, a)
         if granted:
-            sim.check("granted-when-free", recs[a]["f_calls"] == 1, "run", lambda: "capacity free but f of run %d not called" % a)
+            sim.check("granted-when-free", recs[a]["f_calls"] == 1, via, lambda: "capacity free but f of run %d not called" % a)
         else:
-            sim.check("no-early-grant", recs[a]["f_calls"] == 0 and not recs[a]["res"], "run", lambda: "no capacity but run %d started" % a)
+            sim.check("no-early-grant", recs[a]["f_calls"] == 0 and not recs[a]["res"], via, lambda: "no capacity but run %d started" % a)
 
     def releasable():
         return [a for a in order if recs[a]["kind"] == "acq" and recs[a]["state"] == "holding"]
@@ -275,50 +440,98 @@ def run(sim):
         if nxt is not None:
             sim.check("granted-when-free", nxt in real_grants, "release", lambda: "release by %d: waiter %d not granted" % (a, nxt))
 
-    def op_resolve():
-        a = sim.draw_choice(resolvable(), "which")
+    def op_resolve(a=None):
+        if a is None:
+            a = sim.draw_choice(resolvable(), "which")
         ok = not sim.draw_bool(0.4, "fail")
         r = recs[a]
-        fd = r["fd"]
-        r["expect"] = ("value", "r%d" % a) if ok else ("fail", BoomError)
-        sim.event("resolve", a, "ok" if ok else "fail")
+        if r["subs"] is not None:
+            # one sub-operation of a gatherResults()/DeferredList() result fires
+            unfired = [i for i, x in enumerate(r["sub_res"]) if x is None]
+            i = sim.draw_choice(unfired, "sub")
+            target = r["subs"][i]
+            value = "r%d.%d" % (a, i)
+            r["sub_res"][i] = (True, value) if ok else (False, BoomError)
+            last = len(unfired) == 1
+            if r["fmode"] == "gather":
+                available = last or not ok
+                expect = ("fail", defer.FirstError) if not ok else ("value", [x[1] for x in r["sub_res"]]) if last else None
+            else:
+                available = last
+                expect = ("dlist", list(r["sub_res"]))
+            sim.event("resolve-sub", a, i, "ok" if ok else "fail", "available" if available else "partial")
+        else:
+            target = r["fd"]
+            value = "r%d" % a
+            available = True
+            prefix = "co:" if r["fmode"] == "coroutine" else ""
+            expect = ("value", prefix + value) if ok else ("fail", BoomError)
+            sim.event("resolve", a, "ok" if ok else "fail")
         flags["special"] += 1
-        sim.probe("async_run_completed")
-        finish_run(a)
+        if available:
+            r["expect"] = expect
+            sim.probe("async_run_completed")
+            finish_run(a)
+        else:
+            sim.probe("sub_operation_fired_result_still_outstanding")
         with sim.guard("op-raised", "resolve"):
             if ok:
-                fd.callback("r%d" % a)
+                target.callback(value)
             else:
-                fd.errback(BoomError(a))
-        sim.check("run-completes", len(r["res"]) == 1, "resolve", lambda: "run %d has %d results after f's Deferred fired" % (a, len(r["res"])))
+                target.errback(BoomError(a))
+        if available:
+            sim.check("run-completes", len(r["res"]) == 1, "resolve", lambda: "run %d has %d results after f's Deferred fired" % (a, len(r["res"])))
 
-    def op_cancel():
-        cands = [a for a in order if recs[a]["d"] is not None]
+    def cancellable(a):
+        r = recs[a]
+        if r["d"] is None:
+            return False
+        if r["via"] == "with":
+            # a coroutine task is cancelled only while it is suspended (or after it has finished), see ASSUMPTIONS
+            return r["state"] in ("waiting", "async") or bool(r["res"])
+        return True
+
+    def op_cancel(a=None):
+        cands = [a for a in order if cancellable(a)]
         pend = [a for a in cands if recs[a]["state"] == "waiting"]
-        if pend and not sim.draw_bool(0.3, "cancel-nonpending"):
+        if a is not None:
+            pass
+        elif pend and not sim.draw_bool(0.3, "cancel-nonpending"):
             a = sim.draw_choice(pend, "which")
         else:
             a = sim.draw_choice(cands, "which")
         r = recs[a]
         state = r["state"]
-        sim.event("cancel", a, r["kind"], state)
+        sim.event("cancel", a, r["kind"], r["via"] or "-", state)
         if state == "waiting":
             m.cancel_pending(a)
             r["state"] = "cancelled"
             flags["special"] += 1
             sim.probe("cancel_pending")
+            if r["via"] == "with":
+                sim.fault("cancel_task_waiting_to_enter_async_with")
             with sim.guard("op-raised", "cancel"):
                 r["d"].cancel()
             res = r["res"]
             sim.check("cancel-fires-cancelled", len(res) == 1 and isinstance(res[0], Failure) and res[0].check(defer.CancelledError),
                       "cancel", lambda: "cancelled pending %d saw %r" % (a, res))
         elif state == "async":
-            # cancelling run()'s Deferred while f's Deferred is outstanding cancels
+            # cancelling run()'s Deferred (or the async-with task) while f's Deferred is outstanding cancels
             # f's Deferred; its result (CancelledError, or whatever its canceller
             # fires) is then available, so the unit is released
-            r["expect"] = ("value", "c%d" % a) if r["fmode"] == "pending-canceller" else ("fail", defer.CancelledError)
+            if r["fmode"] == "pending-canceller":
+                r["expect"] = ("value", "c%d" % a)
+            elif r["fmode"] == "gather":
+                # the DeferredList cancels its unfired sub-operations; the first CancelledError fires it (fireOnOneErrback)
+                r["expect"] = ("fail", defer.FirstError)
+            elif r["fmode"] == "dlist":
+                r["expect"] = ("dlist", [x if x is not None else (False, defer.CancelledError) for x in r["sub_res"]])
+            else:
+                r["expect"] = ("fail", defer.CancelledError)
             flags["special"] += 1
             sim.probe("cancel_running_run")
+            if r["via"] == "with":
+                sim.fault("cancel_holder_inside_async_with")
             finish_run(a)
             with sim.guard("op-raised", "cancel"):
                 r["d"].cancel()
@@ -333,18 +546,18 @@ def run(sim):
 
     def choose_op():
         ops = [("acquire", 5), ("run", 5), ("release", 6 if releasable() else 0), ("resolve", 5 if resolvable() else 0),
-               ("cancel", 2 if any(recs[a]["d"] is not None for a in order) else 0)]
+               ("cancel", 2 if any(cancellable(a) for a in order) else 0), ("companion", 3 if cprim is not None else 0)]
         return sim.draw_weighted(ops, "op")
 
     def do_op(op):
         sim.step(400 * sim.depth)
-        {"acquire": op_acquire, "run": op_run, "release": op_release, "resolve": op_resolve, "cancel": op_cancel}[op]()
+        {"acquire": op_acquire, "run": op_run, "release": op_release, "resolve": op_resolve, "cancel": op_cancel,
+         "companion": op_companion}[op]()
 
-    for _ in range(nops):
-        do_op(choose_op())
+    def after_op(where):
         if sim.violation is not None:
             raise sim.violation
-        check_state("after-op")
+        check_state(where)
         for a in order:
             r = recs[a]
             sim.check("fires-once", len(r["res"]) <= 1, "any", lambda: "Deferred of %d fired %d times" % (a, len(r["res"])))
@@ -352,7 +565,44 @@ def run(sim):
                 sim.check("no-early-grant", not r["res"] and r["f_calls"] == 0, "any", lambda: "waiting %d already fired" % a)
             if r["kind"] == "run" and r["state"] == "done":
                 sim.check("run-completes", len(r["res"]) == 1, "any", lambda: "finished run %d has no result" % a)
+
+    for _ in range(nops):
+        do_op(choose_op())
+        after_op("after-op")
         sim.state((len(m.holders), min(len(m.waiters), 4), min(len(resolvable()), 3), limit, is_lock))
+
+    # ---- drain (no new requests, no re-entrant ops).  "tasks": every coroutine client is brought to its end - the ones inside
+    # their block get their outstanding result, the ones still waiting to enter are cancelled - so that no suspended coroutine
+    # is left behind; plain acquisitions and run() calls stay as they are.  "full": every outstanding result fires and every
+    # holder releases; every acquisition still waiting is thereby granted in turn and drained as well; afterwards nothing
+    # holds the primitive.
+    st["draining"] = True
+    if drain == "full":
+        sim.probe("full_drain")
+    while True:
+        inside = [a for a in order if recs[a]["via"] == "with" and recs[a]["state"] == "async"]
+        entering = [a for a in order if recs[a]["via"] == "with" and recs[a]["state"] == "waiting"]
+        sim.step(800 * sim.depth)
+        if inside:
+            op_resolve(inside[0])
+        elif drain == "full" and resolvable():
+            op_resolve()
+        elif drain == "full" and releasable():
+            op_release()
+        elif entering:
+            op_cancel(entering[0])
+        else:
+            break
+        after_op("drain")
+    if drain == "full":
+        sim.check("all-capacity-back-when-idle", not m.holders and not m.waiters and not prim.waiting
+                  and (not prim.locked if is_lock else prim.tokens == limit), "drained",
+                  lambda: "model holders=%r waiters=%r real waiting=%d %s" % (
+                      m.holders, m.waiters, len(prim.waiting), ("locked=%r" % prim.locked) if is_lock else ("tokens=%r" % prim.tokens)))
+        for a in order:
+            r = recs[a]
+            sim.check("granted-when-free", r["state"] in ("released", "done", "cancelled") and (r["kind"] == "acq" or len(r["res"]) == 1),
+                      "drained", lambda: "acquisition %d ended in state %s with %d results" % (a, r["state"], len(r["res"])))
     sim.nontrivial = bool(flags["waited_then_granted"] and flags["special"])
 
 
@@ -368,6 +618,12 @@ MUTANTS = [
     "defer.py DeferredSemaphore.acquire: waiting.append(d) -> waiting.insert(0, d)  -- caught: granted-in-request-order",
     "defer.py run.execute: release before calling f (self.release(); return maybeDeferred(f))  -- caught: capacity-conserved / granted-in-request-order",
     "defer.py DeferredSemaphore.acquire: 'if not self.tokens' -> 'if self.tokens < 0' (never waits)  -- caught: granted-in-request-order (holders-within-limit after reordering of the checks)",
+    "defer.py maybeDeferred: 'type(result) in _DEFERRED_SUBCLASSES' -> 'type(result) is Deferred' (a DeferredList / application subclass returned by the run() function counts as a plain value)  -- caught: capacity-conserved (after-op) / holders-within-limit",
+    "defer.py maybeDeferred: coroutine branch disabled ('elif False:')  -- caught: run-result-after-release / holders-within-limit",
+    "defer.py _ConcurrencyPrimitive.__aexit__: release() only when the block is left without an exception  -- caught: capacity-conserved / waiters-match (at-async-with-result)",
+    "defer.py _ConcurrencyPrimitive.__aenter__: succeed(self) instead of acquire()  -- caught: holders-within-limit (async-with) / capacity-conserved",
+    "seeded C06-r5a (run() unrolls maybeDeferred and recognises only the exact Deferred type)  -- caught: capacity-conserved (after-op) / holders-within-limit (run, acquire)",
+    "seeded C06-r5b (__aexit__ skips release() when the block is left by CancelledError)  -- caught: capacity-conserved / waiters-match (at-async-with-result)",
 ]
 
 
